@@ -92,7 +92,9 @@ func NewJSONEnvelope(payload interface{}) (*JSONEnvelope, error) {
 	if err != nil {
 		return nil, fmt.Errorf("failed to encode payload %w", err)
 	}
-	hash := sha256.Sum256(pl)
+	// IsValid hashes application/json payloads with the backslashes removed, so
+	// the same canonical form has to be signed here.
+	hash := sha256.Sum256([]byte(strings.Replace(string(pl), `\`, "", -1)))
 	signature, err := privateKey.Sign(hash[:])
 	if err != nil {
 		return nil, fmt.Errorf("failed to create signature %w", err)
